@@ -13,6 +13,11 @@ represents the tree the sequential model reaches in any order (`concurrent_mkdir
 shared-ancestor creation race; `interleaving_refines_some_order_false`: on RELATED paths the operations
 are not linearisable).
 
+`dir_lock_holder_inside` / `quiescent_locks_free`: the model carries the lock state (`DirObj.outer`, `muR`,
+`FileObj.lock`); a directory's writer lock is held only by a thread inside a critical section on that directory,
+so after any schedule in which every thread finished no directory lock is held (and with closed handles no lock
+at all).
+
 PARTIAL (DESIGN 3, C09): that the Go critical sections really are atomic (Go memory model; nothing
 outside the modelled sections races) is an assumption supported by the lock facts (`Goat/Tie/C09.lean`)
 and the `-race` stress of the check, not a theorem.  Stream handles are not among the operations of
@@ -22,6 +27,7 @@ import Goat.Proofs.MemFSConcDeadlock
 import Goat.Proofs.MemFSConcCommute
 import Goat.Proofs.MemFSConcFile
 import Goat.Proofs.MemFSConcFinal
+import Goat.Proofs.MemFSConcQuiescent
 
 namespace Goat.C09
 open Goat.MemFSConc Goat.LTS
@@ -159,6 +165,56 @@ theorem no_deadlock_samefile_discipline_false :
       stuckB .fixed s && unfinished s 0 && noLeakB s && selfFreeB .fixed s) = true := by decide
   simp only [Bool.and_eq_true] at h
   exact ⟨stuck_of_stuckB h.1.1.1, ⟨0, h.1.1.2⟩, noLeak_of_noLeakB h.1.2, h.2⟩
+
+/-! ## quiescent_locks_free -/
+
+/-- A DIRECTORY'S WRITER LOCK IS HELD ONLY FROM INSIDE.  In every reachable state - any number of threads
+running any programs, every schedule, every lock-order variant - the holder of a directory's outer lock
+(`Dir.Lock`) is a thread in the middle of a `WriteFile`/`Writer` critical section on that very directory;
+a thread between two operations (`pc = idle`), and a thread that has run to its end, holds none: no
+operation RETURNS with the lock held, whichever branch it took (also the one where `addNode` fails
+because a `Copy`/`MkdirAll`, which do not take this lock, inserted the name in `memfs.write.gap`). -/
+theorem dir_lock_holder_inside (v : Variant) (progs : List (List Op)) (sched : List Tid)
+    (d : Oid) (dd : DirObj) (t : Tid)
+    (hg : getDir ((sys v progs).run sched).heap d = some dd) (ho : dd.outer = some t) :
+    ∃ th, ((sys v progs).run sched).threads[t]? = some th ∧ th.pc ≠ .idle ∧ holdsOuter th.pc = some d ∧
+      unfinished ((sys v progs).run sched) t = true :=
+  outer_holder (linv_reachable v progs (run_reachable (sys v progs) sched)) hg ho
+
+/-- QUIESCENT ⇒ ALL LOCKS FREE.  After any schedule that lets every thread finish, every directory lock
+is free (every variant); in the repaired lock order, if the finished threads have closed their stream
+handles (`NoLeak`: a handle is the one lock the interface lets a caller keep), NO lock of the heap is held
+(`NoLocks`) - the heap is again a legal starting point of `distinct_paths_commute` /
+`distinct_paths_progress`, and a later operation on any name of any directory is not blocked. -/
+theorem quiescent_dir_locks_free (v : Variant) (progs : List (List Op)) (sched : List Tid)
+    (hq : ∀ t, unfinished ((sys v progs).run sched) t = false) (d : Oid) (dd : DirObj)
+    (hg : getDir ((sys v progs).run sched).heap d = some dd) : dd.outer = none := by
+  cases ho : dd.outer with
+  | none => rfl
+  | some t =>
+    obtain ⟨_, _, _, _, hu⟩ := dir_lock_holder_inside v progs sched d dd t hg ho
+    rw [hq t] at hu
+    cases hu
+
+theorem quiescent_locks_free (progs : List (List Op)) (sched : List Tid)
+    (hq : ∀ t, unfinished ((sys .fixed progs).run sched) t = false)
+    (hleak : NoLeak ((sys .fixed progs).run sched)) : NoLocks ((sys .fixed progs).run sched).heap :=
+  quiescent_noLocks (linv_reachable .fixed progs (run_reachable (sys .fixed progs) sched)) rfl hq hleak
+
+-- the race of seeded change C09-8 in the model: thread 0 makes s and d and is held in `memfs.write.gap` of
+-- Writer(d/p) with d's lock (14 steps), thread 1 copies s onto d/p (the WriteFile of thread 2 on ANOTHER name of
+-- d is blocked meanwhile), thread 0 is released: its Writer fails, it unlocks, everybody finishes, no lock is left
+set_option maxRecDepth 16000 in
+example : let progs : List (List Op) := [[.writeFile [[115]] [7], .mkdirAll [[100]], .openW 1 [[100], [112]], .close 1],
+      [.copy [[115]] [[100], [112]]], [.writeFile [[100], [113]] [9]]]
+    let run := fun (n m k j : Nat) => (sys .fixed progs).run
+      (List.replicate n 0 ++ List.replicate m 1 ++ List.replicate k 0 ++ List.replicate j 2)
+    (getDir (run 14 10 0 0).heap 2).map (·.outer) = some (some 0)
+      ∧ (step .fixed (run 14 10 0 0) 2).isSome = true ∧ (step .fixed (run 14 10 0 3) 2).isSome = false
+      ∧ (∀ t ∈ [0, 1, 2, 3], unfinished (run 14 10 10 10) t = false) ∧ noLeakB (run 14 10 10 10) = true
+      ∧ resultsOf (run 14 10 10 10) 0 = [.ok, .ok, .err, .err] ∧ resultsOf (run 14 10 10 10) 1 = [.ok]
+      ∧ resultsOf (run 14 10 10 10) 2 = [.ok]
+      ∧ (getDir (run 14 10 10 10).heap 2).map (·.outer) = some none := by decide
 
 /-! ## the old lock orders deadlock (disproofs for the code before the repairs) -/
 
